@@ -212,9 +212,10 @@ Definition props_body_len (allowed : list prop_id) (p : props) : N :=
             (N.of_nat (length (pr_user p)) + fold_right (fun u a => user_len u + a) 0 (pr_user p)).
 
 (* encode_properties_len!: body + var_int_len(body).expect(..) *)
-Definition props_len (allowed : list prop_id) (p : props) : outcome N :=
-  let n := props_body_len allowed p in
+Definition props_len_of_body (n : N) : outcome N :=
   match var_int_len n with Ok k => Ok (n + k) | _ => Panic SitePropsLenExpect end.
+Definition props_len (allowed : list prop_id) (p : props) : outcome N :=
+  props_len_of_body (props_body_len allowed p).
 
 Definition user_enc (u : bytes * bytes) : list bytes :=
   [[USER_PROPERTY]; be16 (len (fst u) mod 65536); fst u; be16 (len (snd u) mod 65536); snd u].
